@@ -505,7 +505,27 @@ def run(R, P="C09"):
             vals = [v for k_, v in common.assigned_values(f.node, rnodes[0].value.id) if k_ == "expr"]
             vals.sort(key=lambda v: (getattr(v, "lineno", 0), getattr(v, "col_offset", 0)))
             rs = [q.src(v) for v in vals]
-        R.check(rs == want, P + ".CLASSIFY", fq + ":returns", R.site(f), "%s returns %s" % (f.name, want), "%s returns %s" % (f.name, rs))
+        okr = rs == want
+        if not okr and sorted(rs) == sorted(want) and rs[:3] == want[:3] and len(want) == 5 and len(rnodes) == 5:
+            # the fallback arms in the other order (guard clause `if not wrap_if_none: return None` first): decided on paths - the
+            # wrapper is returned only over the true edge of the flag, None only over its false edge
+            fcfg_ = cfg_of(f)
+            flag = q.param_names(f.node)[1] if len(q.param_names(f.node)) > 1 else None
+
+            def flag_edge(want_true):
+                def g(nd):
+                    if nd.kind != "test":
+                        return None
+                    k_, s_, pos_ = q.atom_test(nd.ast)
+                    if k_ == "truth" and s_ == flag:
+                        return ("T" if pos_ else "F") if want_true else ("F" if pos_ else "T")
+                    return None
+                return g
+            wn = [x for r_ in rnodes if q.src(r_.value) == want[3] for x in fcfg_.nodes_for(r_)]
+            nn = [x for r_ in rnodes if q.src(r_.value) == want[4] for x in fcfg_.nodes_for(r_)]
+            okr = bool(flag) and bool(wn) and bool(nn) and kit.path_avoiding_guard(fcfg_, wn, flag_edge(True), N) is None \
+                and kit.path_avoiding_guard(fcfg_, nn, flag_edge(False), N) is None
+        R.check(okr, P + ".CLASSIFY", fq + ":returns", R.site(f), "%s returns %s" % (f.name, want), "%s returns %s" % (f.name, rs))
     # a marker attribute is read only where its presence was established
     def has_marker(attr):
         def g(nd):
